@@ -44,12 +44,24 @@ def spec_compare(con, dirs, a, b):
     return 0
 
 
-def impl_compare(con, dirs, a, b):
+_SHARED = []
+
+
+def shared_cmp():
+    """One comparator instance used for ALL comparisons of a run (the library itself shares default
+    ParetoDominance() instances between archives and algorithms), so a result that depends on what the
+    comparator saw before shows up as a model/implementation disagreement."""
     from platypus import ParetoDominance
+    if not _SHARED:
+        _SHARED.append(ParetoDominance())
+    return _SHARED[0]
+
+
+def impl_compare(con, dirs, a, b):
     p = plat.mk_problem(len(dirs), dirs, nconstrs=(1 if con == 1 else (2 if con else 0)))
     s1 = plat.mk_solution(p, a[0], a[1])
     s2 = plat.mk_solution(p, b[0], b[1])
-    return ParetoDominance().compare(s1, s2), p, s1, s2
+    return shared_cmp().compare(s1, s2), p, s1, s2
 
 
 def case_lit(con, dirs, a, b, r):
@@ -109,6 +121,8 @@ def gen_cases(ctx):
 
 def run(ctx):
     cases = gen_cases(ctx)
+    # interleave direction vectors / sizes so a shared comparator meets changing problems
+    ctx.rng.shuffle(cases)
     lits = []
     dist = {"n_objs": {}, "constrained": 0, "ties_some": 0, "result": {-1: 0, 0: 0, 1: 0}}
     for (con, dirs, a, b) in cases:
@@ -129,7 +143,11 @@ def run(ctx):
             ctx.violation("compare-differs-from-definition", "ParetoDominance.compare(%r,%r) dirs=%r constrained=%r returned %r, definition says %r" % (a, b, dirs, con, r, exp),
                           {"kind": "pair", "con": con, "dirs": dirs, "a": [list(map(repr, a[0])), repr(a[1])], "b": [list(map(repr, b[0])), repr(b[1])], "impl": r, "expected": exp})
         from platypus import ParetoDominance
-        r2 = ParetoDominance().compare(s2, s1)
+        rf = ParetoDominance().compare(s1, s2)
+        if rf != r:
+            ctx.violation("compare-depends-on-comparator-history", "a comparator instance that has been used before answers %r, a fresh one %r, for %r %r dirs=%r constrained=%r" % (r, rf, a, b, dirs, con),
+                          {"kind": "pair", "con": con, "dirs": dirs, "a": [list(map(repr, a[0])), repr(a[1])], "b": [list(map(repr, b[0])), repr(b[1])], "impl": r, "expected": exp, "note": "shared comparator instance; replay runs the whole sequence"})
+        r2 = shared_cmp().compare(s2, s1)
         if r2 != -r:
             ctx.violation("compare-not-antisymmetric", "compare(b,a)=%r but compare(a,b)=%r for %r %r dirs=%r" % (r2, r, a, b, dirs),
                           {"kind": "pair", "con": con, "dirs": dirs, "a": [list(map(repr, a[0])), repr(a[1])], "b": [list(map(repr, b[0])), repr(b[1])], "impl": r, "expected": exp})
@@ -179,6 +197,8 @@ def replay(ctx, data):
     if rp.get("kind") == "pair":
         a = ([float(x) for x in rp["a"][0]], float(rp["a"][1]))
         b = ([float(x) for x in rp["b"][0]], float(rp["b"][1]))
+        if rp.get("note"):
+            return run(ctx)   # history-dependent failure: re-run the whole sequence
         r, *_ = impl_compare(rp["con"], rp["dirs"], a, b)
         exp = spec_compare(rp["con"], rp["dirs"], a, b)
         ctx.count()
